@@ -646,13 +646,83 @@ def m_cv_wait(I, st, fr, n, this, args, an):
         outer_this = st.mem.get(fr.this) if fr.this is not None else None
         out = []
 
+        def enum_cells(s):
+            """cells of the monitor object that hold an unknown enumeration value: the predicate is evaluated for each
+            enumerator, so that a predicate that passes the value to a helper (by copy) still tells which values let the waiter go"""
+            out_ = []
+            rec_ = I.prog.records.get(fr.fn.get('rec')) if fr.fn.get('rec') else None
+            if rec_ is None or not cv[1]:
+                return out_
+            parent = cv[1][:-1]
+            for fld in rec_['fields']:
+                t_ = I.prog.type(fld['t'])
+                if t_.get('k') == 'enum' and t_.get('enum') in I.prog.enums:
+                    k_ = (cv[0], parent + (fld['d'][2:],))
+                    if s.mem.get(k_, TOP) == TOP:
+                        out_.append((k_, sorted(I.prog.enums[t_['enum']]['consts'].values())))
+            return out_
+
         def pred_true(s):
             res = []
+            cells = enum_cells(s)
+            if len(cells) == 1 and len(cells[0][1]) <= 16:
+                k_, vals_ = cells[0]
+                keep = []
+                for v_ in vals_:
+                    s1 = s.copy()
+                    s1.mem[k_] = C(v_)
+                    for s2, v in I.inline(lam, s1, fr, n, outer_this, [], []):
+                        tv = truth(v, s2.sym) if is_int(v) else None
+                        if tv is True or tv is None:
+                            keep.append(v_)
+                if keep:
+                    s3 = s.copy()
+                    s3.mem[k_] = S(keep) if len(set(keep)) > 1 else C(keep[0])
+                    res.append(s3)
+                return res
             for s2, v in I.inline(lam, s, fr, n, outer_this, [], []):
                 tv = truth(v, s2.sym) if is_int(v) else None
                 if tv is True or tv is None:
                     res.append(s2)
             return res
+        # the token cell with the values it may hold now: those for which the predicate holds pass without blocking
+        rec0 = I.prog.records.get(fr.fn.get('rec')) if fr.fn.get('rec') else None
+        cell0 = None
+        if rec0 is not None and cv[1]:
+            ecs = [f_ for f_ in rec0['fields'] if I.prog.type(f_['t']).get('k') == 'enum' and I.prog.type(f_['t']).get('enum') in I.prog.enums]
+            if len(ecs) == 1:
+                k0 = (cv[0], cv[1][:-1] + (ecs[0]['d'][2:],))
+                cur = I.load(st, k0)
+                cur = I.enum_default(cur, I.prog.type(ecs[0]['t']))
+                cs = setof(cur)
+                if cs is not None and len(cs) <= 16:
+                    cell0 = (k0, sorted(cs))
+        if cell0 is not None:
+            k0, vals0 = cell0
+            go, stay = [], []
+            und = False
+            for v_ in vals0:
+                s1 = st.copy()
+                s1.mem[k0] = C(v_)
+                rr = I.inline(lam, s1, fr, n, outer_this, [], [])
+                tvs = {truth(v, s2.sym) if is_int(v) else None for s2, v in rr}
+                if tvs == {True}:
+                    go.append(v_)
+                elif tvs == {False}:
+                    stay.append(v_)
+                else:
+                    und = True
+            if not und:
+                if go:
+                    s_go = st.copy()
+                    s_go.mem[k0] = S(go) if len(go) > 1 else C(go[0])
+                    out.append((s_go, VOID))
+                if stay:
+                    blocked = st.copy()
+                    _havoc_monitor(blocked, cv)
+                    for s3 in pred_true(blocked):
+                        out.append((s3, VOID))
+                return out
         # already satisfied: no blocking; otherwise block (others may change the monitor), then the predicate holds
         for s2, v in I.inline(lam, st.copy(), fr, n, outer_this, [], []):
             tv = truth(v, s2.sym) if is_int(v) else None
